@@ -721,11 +721,21 @@ func storesTo(addr ssa.Value) []*ssa.Store {
 	}
 	for _, r := range *refs {
 		if st, ok := r.(*ssa.Store); ok && st.Addr == addr {
+			if gStoreFilter != nil && st.Block() != nil && st.Block().Parent() == gStoreFilterFn && !gStoreFilter[st.Block()] {
+				continue // a store on a path that cannot run in the case being examined
+			}
 			out = append(out, st)
 		}
 	}
 	return out
 }
+
+// gStoreFilter: when set, storesTo ignores stores of gStoreFilterFn outside these blocks (path-restricted
+// derivation: "what can this variable hold when the function runs for THIS case").
+var (
+	gStoreFilter   map[*ssa.BasicBlock]bool
+	gStoreFilterFn *ssa.Function
+)
 
 // allInstrs iterates over all instructions of f.
 func allInstrs(f *ssa.Function, fn func(b *ssa.BasicBlock, i ssa.Instruction)) {
